@@ -379,9 +379,9 @@ theorem reduce_shared (ds : Ds α) (name : String) (newAxis : Axis) (f : Nat →
 
 /-! ### take_axis by position -/
 
-/-- the bare axis `Dataset.take_axis` builds -/
+/-- the axis `Dataset.take_axis` builds (`Axis.take`: the metadata of the axis is kept) -/
 def takeNewAxis (name : String) (ax : Axis) (ps : List Nat) : Axis :=
-  { name := name, labels := ps.map fun p => ax.labels.getD p Label.none, kind := ax.kind }
+  { name := name, labels := ps.map fun p => ax.labels.getD p Label.none, kind := ax.kind, attrs := ax.attrs }
 
 theorem takeAxisPosDs_closed (ds out : Ds α) (name : String) (ps : List Nat) (hown : OwnAxes ds)
     (hd : ds.dims.Nodup) (hk : ds.keys.Nodup) (h : takeAxisPosDs ds name ps = .ok out) :
@@ -463,6 +463,33 @@ theorem reduceVar_take (v : DimArray α) (name : String) (ax : Axis) (ps : List 
     rw [if_pos hlt]
     rfl
 
+theorem DimArray.ext' {x y : DimArray α} (h1 : x.axes = y.axes) (h2 : x.vals = y.vals) (h3 : x.vkind = y.vkind)
+    (h4 : x.attrs = y.attrs) : x = y := by
+  cases x; cases y; simp_all
+
+/-- one variable of `Dataset.take_axis` IS `DimArray.take_axis` of that variable when the variable's axis of that
+name is the Dataset's (`OwnAxes`): kind and metadata of the operated axis included (`Axis.take` on both sides) -/
+theorem reduceVar_take_eq (v : DimArray α) (name : String) (ax : Axis) (ps : List Nat) (hnd : v.dims.Nodup)
+    (hmem : name ∈ v.dims) (hn : ax.name = name) (hax : ∀ a ∈ v.axes, a.name = name → a = ax) :
+    reduceVar name (takeNewAxis name ax ps) (takeVals ps) v = takeAxisPos v (v.dims.idxOf name) ps := by
+  have hlt : v.dims.idxOf name < v.dims.length := List.idxOf_lt_length_iff.2 hmem
+  unfold reduceVar
+  rw [if_pos hlt]
+  apply DimArray.ext'
+  · rw [takeAxisPos_axes v name ps hnd]
+    show replAxis name (takeNewAxis name ax ps) v.axes = _
+    unfold replAxis
+    apply List.map_congr_left
+    intro a ha
+    split
+    · rename_i h
+      rw [hax a ha (by simpa using h)]
+      simp only [takeNewAxis, axisTake, hn]
+    · rfl
+  · rfl
+  · rfl
+  · rfl
+
 /-! ### the axis of a variable at the position of a name -/
 
 theorem axes_getD_idxOf (v : DimArray α) (name : String) (hmem : name ∈ v.dims) :
@@ -530,7 +557,7 @@ def rxPatch (name : String) (ax : Axis) (newL : List Label) (newKind : Kind) (fi
     (kv : String × DimArray α) : String × DimArray α :=
   if kv.2.dims.idxOf name < kv.2.dims.length then
     (kv.1, { axes := kv.2.axes.map fun a => if a.name == name then
-                ({ name := name, labels := rxLab ax.labels newL, kind := maybeCastKind ax.kind newKind } : Axis) else a
+                ({ name := name, labels := rxLab ax.labels newL, kind := maybeCastKind ax.kind newKind, attrs := ax.attrs } : Axis) else a
              vals := kv.2.vals.putWhere
                (fun j => (mismatchMask ax.labels (locateMany ax.labels newL .left) newL).getD
                   (j.getD (kv.2.dims.idxOf name) 0) false) (fun _ => fill)
@@ -544,7 +571,7 @@ theorem reindexAxisDs_closed (ds out : Ds α) (name : String) (newL : List Label
       takeAxisPosDs ds name (locateMany ax.labels newL .left) = .ok taken ∧
       out = (if (mismatchMask ax.labels (locateMany ax.labels newL .left) newL).any id then
         { axes := taken.axes.map fun a => if a.name == name then
-              ({ name := name, labels := rxLab ax.labels newL, kind := maybeCastKind ax.kind newKind } : Axis) else a
+              ({ name := name, labels := rxLab ax.labels newL, kind := maybeCastKind ax.kind newKind, attrs := ax.attrs } : Axis) else a
           vars := taken.vars.map (rxPatch name ax newL newKind fill fillKind)
           attrs := taken.attrs }
         else taken) := by
@@ -609,7 +636,7 @@ theorem rxPatch_reduceVar (v : DimArray α) (k name : String) (ax : Axis) (hmem 
     ∃ r, rxPatch name ax newL newKind fill fillKind
         (k, reduceVar name (takeNewAxis name ax ps) (takeVals ps) v) = (k, r) ∧
       r.axes = (v.axes.map fun a => if a.name == name then
-        ({ name := name, labels := rxLab ax.labels newL, kind := maybeCastKind ax.kind newKind } : Axis) else a) ∧
+        ({ name := name, labels := rxLab ax.labels newL, kind := maybeCastKind ax.kind newKind, attrs := ax.attrs } : Axis) else a) ∧
       r.vals = (rxResult v name ax newL newKind fill fillKind).vals ∧
       r.attrs = (rxResult v name ax newL newKind fill fillKind).attrs ∧
       r.vkind = (rxResult v name ax newL newKind fill fillKind).vkind := by
@@ -629,6 +656,20 @@ theorem rxPatch_reduceVar (v : DimArray α) (k name : String) (ax : Axis) (hmem 
   · simp only [rxResult, if_pos hany, reduceVar, if_pos hlt, takeVals, hps]
   · simp only [rxResult, if_pos hany, reduceVar, if_pos hlt]
   · simp only [rxResult, if_pos hany, reduceVar, if_pos hlt]
+
+/-- one variable of `Dataset.reindex_axis` (some label did not match) IS `DimArray.reindex_axis` of that variable
+when `ax` (the Dataset's axis) carries the operated name: the patched axis keeps kind-widening and metadata alike -/
+theorem rxPatch_reduceVar_eq (v : DimArray α) (k name : String) (ax : Axis) (hmem : name ∈ v.dims) (hnd : v.dims.Nodup)
+    (hn : ax.name = name) (newL : List Label) (newKind : Kind) (fill : α) (fillKind : Kind) (ps : List Nat)
+    (hps : ps = locateMany ax.labels newL .left)
+    (hany : (mismatchMask ax.labels (locateMany ax.labels newL .left) newL).any id = true) :
+    rxPatch name ax newL newKind fill fillKind (k, reduceVar name (takeNewAxis name ax ps) (takeVals ps) v) =
+      (k, rxResult v name ax newL newKind fill fillKind) := by
+  obtain ⟨r, hr, hax, hvals, hattrs, hvk⟩ := rxPatch_reduceVar v k name ax hmem newL newKind fill fillKind ps hps hany
+  rw [hr]
+  congr 1
+  apply DimArray.ext' _ hvals hvk hattrs
+  rw [hax, rxResult_axes v name ax newL newKind fill fillKind hnd hany, hn]
 
 /-! ### `setItem` in general (axes may be appended) -/
 
@@ -918,7 +959,8 @@ theorem map_zip_map_self {β γ δ : Type} (l : List β) (f : β → γ) (g : β
 /-- `_get_indices` of `{name: ix}`: the resolved index along `name`, a full slice along every other dimension -/
 theorem getIndices_dict (axes : List Axis) (name : String) (ix : Ix) (cfg : IndexCfg) (hmem : name ∈ axes.map (·.name))
     (ax : Axis) (hax : ∀ a ∈ axes, a.name = name → a = ax) (raw : RawIx)
-    (hraw : (if cfg.mode != .position && !ix.isFull then loc ax.labels ax.kind ix cfg.tol else ixToRaw ix) = .ok raw) :
+    (hraw : (if cfg.mode != .position && !ix.isFull then loc ax.labels ax.kind ix cfg.tol else ixToRaw ix) = .ok raw)
+    (hfit : ∀ m, ix = .mask m → m.length = ax.size) :
     getIndices axes (.dict [(.name name, ix)]) cfg =
       .ok (axes.map fun a => if a.name == name then keepRaw cfg.keepdims raw else .slice none none none) := by
   have hne : ix ≠ .ellipsis := by
@@ -949,6 +991,8 @@ theorem getIndices_dict (axes : List Axis) (name : String) (ix : Ix) (cfg : Inde
           · simp only [loc] at hraw; cases hraw; rfl
           · simp only [ixToRaw, pure, Except.pure] at hraw; cases hraw; rfl
         subst this
+        have hb' : (m.length == a.size) = true := by simpa using hfit m rfl
+        simp only [hb', if_true]
         rfl
       | scalar v =>
         simp only []
@@ -1003,7 +1047,19 @@ theorem take_dict_ok (v : DimArray α) (name : String) (ix : Ix) (cfg : IndexCfg
     take v (.dict [(.name name, ix)]) cfg = .ok (takeVar name p v) := by
   have hlt : v.dims.idxOf name < v.dims.length := List.idxOf_lt_length_iff.2 hmem
   unfold Lib.take
-  rw [getIndices_dict v.axes name ix cfg hmem ax hax raw hraw, ok_bind, map_zip_self]
+  have hfit : ∀ m, ix = .mask m → m.length = ax.size := by
+    intro m hm
+    subst hm
+    have : raw = .mask m := by
+      split at hraw
+      · simp only [loc] at hraw; cases hraw; rfl
+      · simp only [ixToRaw, pure, Except.pure] at hraw; cases hraw; rfl
+    subst this
+    simp only [keepRaw, resolveRaw] at hp
+    split at hp
+    · rename_i h; simpa using h
+    · cases hp
+  rw [getIndices_dict v.axes name ix cfg hmem ax hax raw hraw hfit, ok_bind, map_zip_self]
   have hpix : (v.axes.map fun a => (if a.name == name then keepRaw cfg.keepdims raw else RawIx.slice none none none, a)).mapM
       (fun x : RawIx × Axis => resolveRaw x.1 x.2.size) = .ok (pixOf name p v.axes) := by
     refine (mapM_ok_map _ (fun x : RawIx × Axis =>
@@ -1068,7 +1124,7 @@ theorem take_shared (ds : Ds α) (name : String) (p : PosIx) (hs : SharedAxes ds
 theorem rxPatch_axes (name : String) (ax : Axis) (newL : List Label) (newKind : Kind) (fill : α) (fillKind : Kind)
     (kv : String × DimArray α) :
     (rxPatch name ax newL newKind fill fillKind kv).2.axes =
-      replAxis name { name := name, labels := rxLab ax.labels newL, kind := maybeCastKind ax.kind newKind } kv.2.axes := by
+      replAxis name { name := name, labels := rxLab ax.labels newL, kind := maybeCastKind ax.kind newKind, attrs := ax.attrs } kv.2.axes := by
   unfold rxPatch
   split
   · rfl
@@ -1080,7 +1136,7 @@ theorem rxPatch_axes (name : String) (ax : Axis) (newL : List Label) (newKind : 
 def rxOut (taken : Ds α) (name : String) (ax : Axis) (newL : List Label) (newKind : Kind) (fill : α)
     (fillKind : Kind) : Ds α :=
   { axes := taken.axes.map (fun a => if a.name == name then
-      ({ name := name, labels := rxLab ax.labels newL, kind := maybeCastKind ax.kind newKind } : Axis) else a)
+      ({ name := name, labels := rxLab ax.labels newL, kind := maybeCastKind ax.kind newKind, attrs := ax.attrs } : Axis) else a)
     vars := taken.vars.map (rxPatch name ax newL newKind fill fillKind)
     attrs := taken.attrs }
 
@@ -1111,7 +1167,7 @@ theorem rx_shared (taken : Ds α) (name : String) (ax : Axis) (newL : List Label
       rw [(by simpa using h : a.name = name)] at hmem
       exact hmem
     · exact hmem
-  · show ((replAxis name ({ name := name, labels := rxLab ax.labels newL, kind := maybeCastKind ax.kind newKind } : Axis)
+  · show ((replAxis name ({ name := name, labels := rxLab ax.labels newL, kind := maybeCastKind ax.kind newKind, attrs := ax.attrs } : Axis)
       taken.axes).map (·.name)).Nodup
     rw [replAxis_names name _ rfl]
     exact hs.2.2
